@@ -24,10 +24,12 @@ structure WFm (m : Machine) : Prop where
   len : m.progmem.length ≤ isizeMax
   fit : ∀ i ∈ m.progmem, i.operandsFit
 
-/-- The panic-site inventory (`tools/inventory/C25.json`: every panic-capable construct of the
-modelled Rust functions, with the `hostPanic` branch / guard lemma it maps to) matches the source:
-no construct without a disposition, none vanished. -/
-theorem panic_inventory_matches : Gen.VMPanicSites.inventoryOk = true := rfl
+/-- The panic-site inventory (`tools/inventory/C25.json`: every panic-capable construct of the VM's
+non-test code, with the `hostPanic` branch / guard lemma / justification it maps to) covers the
+source: no (file, function, kind) has MORE such constructs than were reviewed.  Fewer is fine — a
+removed panic site cannot break the property, and refactors that drop an `unreachable!()` stay quiet. -/
+theorem panic_inventory_matches :
+    Gen.VMPanicSites.siteCounts.all (fun e => decide (e.2.1 ≤ e.2.2)) = true := by decide
 
 /-- The `QueryStart`/`QueryNext`/`Update` arms of `step` have a shape the translator recognises
 (the model follows the generated flags `queryNextFilters`, `updateGivenOnly`). -/
